@@ -121,8 +121,8 @@ def main():
             flt = {}
             for p, v in out.items():
                 cs = [c for c in v["constructs"] if c.startswith(rules_prefix + ".") or f"[{rules_prefix}." in c]
-                if cs:
-                    flt[p] = {"rules": sorted({c.split(" ")[0] for c in cs}), "constructs": cs, "errors": []}
+                if cs or v["errors"]:
+                    flt[p] = {"rules": sorted({c.split(" ")[0] for c in cs}), "constructs": cs, "errors": v["errors"]}
             out = flt
         mine = out.get(own, {}).get("rules", []) if own else []
         errs_own = out.get(own, {}).get("errors", []) if own else []
